@@ -173,6 +173,15 @@ static void emit_corpus(int mode) {
     int n = 0; for (int which = 0; which < 2; which++) { std::string in = b64u_enc(h) + (which == 0 ? "A" : "") + "." + b64u_enc(pay) + (which == 1 ? "A" : "");
       std::string sig = c.k ? ref_sign(*c.k, a, in) : std::string(); std::string body = std::string(1, (char)(i & 0xff)) + std::string(1, (char)(i >> 8)) + in + "." + b64u_enc(sig);
       std::string fn = std::string(d) + "/len4k1-" + std::to_string(i) + "-" + std::to_string(n++); FILE *f = fopen(fn.c_str(), "wb"); if (f) { fwrite(body.data(), 1, body.size(), f); fclose(f); } } }
+  // header alg members of every shape around a name: empty, one character, a name cut short / extended / in other case, not a string, absent
+  for (size_t i = 0; i < CFGS.size(); i += 3) { const Cfg &c = *CFGS[i]; jwt_alg_t a = c.k ? cfg_alg(c) : JWT_ALG_NONE; std::string nm = a == JWT_ALG_NONE ? "none" : jwt_alg_str(a); int n = 0;
+    std::string lower = nm; for (auto &ch : lower) ch = (char)tolower((unsigned char)ch);
+    for (const std::string &av : {std::string("\"\""), std::string("\" \""), "\"" + nm.substr(0, 1) + "\"", "\"" + nm.substr(0, nm.size() - 1) + "\"", "\"" + nm + nm.substr(nm.size() - 1) + "\"", "\"" + lower + "\"", std::string("1"), std::string("null"), std::string("[]"), std::string("{}"), std::string("true"), std::string()}) {
+      std::string h = av.empty() ? std::string("{\"typ\":\"JWT\"}") : "{\"alg\":" + av + ",\"typ\":\"JWT\"}", pay = "{\"iss\":\"issuer\",\"sub\":\"subject\",\"aud\":\"audience\"}", in = b64u_enc(h) + "." + b64u_enc(pay);
+      std::string sig = c.k ? ref_sign(*c.k, a, in) : std::string(), body;
+      if (mode == 0) body = std::string(1, (char)(i & 0xff)) + std::string(1, (char)(i >> 8)) + in + "." + b64u_enc(sig);
+      else body = std::string(1, (char)(i & 0xff)) + std::string(1, (char)(i >> 8)) + std::string(1, (char)0) + std::string(1, (char)(h.size() & 0xff)) + std::string(1, (char)(h.size() >> 8)) + std::string(1, (char)(pay.size() & 0xff)) + std::string(1, (char)(pay.size() >> 8)) + h + pay + sig;
+      std::string fn = std::string(d) + "/algshape-" + std::to_string(i) + "-" + std::to_string(n++); FILE *f = fopen(fn.c_str(), "wb"); if (f) { fwrite(body.data(), 1, body.size(), f); fclose(f); } } }
   // a few long inputs (tens of kilobytes): valid long token, long garbage in each segment
   for (size_t i = 2; i < CFGS.size(); i += 21) {
     const Cfg &c = *CFGS[i]; jwt_alg_t a = c.k ? cfg_alg(c) : JWT_ALG_NONE; static KeySpec dummy;
